@@ -18,7 +18,7 @@ func Union(c explore.Chooser) *prog.Program {
 
 	marker := s.Pick("Shape.marker", "isShape", "IsShape")
 	nmeth := s.Pick("Shape.methods", "1", "0", "2")
-	second := s.Pick("I2", "absent", "other", "embeds-shape", "in-sub", "unreached", "two-more", "in-sub-diamond")
+	second := s.Pick("I2", "absent", "other", "embeds-shape", "in-sub", "unreached", "two-more", "in-sub-diamond", "in-module-root")
 	reach := s.Pick("reach", "field", "named-slice", "named-map", "top-level-only", "alias", "member-field", "nested-struct", "alias-of-member")
 
 	homonym := s.Pick("homonym", "none", "square-in-sub")
@@ -207,6 +207,8 @@ func Union(c explore.Chooser) *prog.Program {
 		holder = append(holder, "\tO Other")
 	case "in-sub":
 		holder = append(holder, "\tA sub.Animal", "\tC sub.Cat")
+	case "in-module-root": // a union declared in the package whose import path is the two-element prefix of the tree
+		holder = append(holder, "\tB proj.Beast")
 	case "in-sub-diamond": // the package of the union is reached by two import paths (un -> sub, un -> mid -> sub)
 		holder = append(holder, "\tA sub.Animal", "\tC sub.Cat", "\tK mid.Kennel")
 	}
@@ -221,7 +223,13 @@ func Union(c explore.Chooser) *prog.Program {
 
 	hdr := "package un\n\n"
 	asrc := a.String()
-	if second == "in-sub-diamond" {
+	if second == "in-module-root" {
+		if needSub && strings.Contains(asrc, "sub.") {
+			hdr += fmt.Sprintf("import (\n\t%q\n\t%q\n)\n\n", prog.Module, subPath)
+		} else {
+			hdr += fmt.Sprintf("import %q\n\n", prog.Module)
+		}
+	} else if second == "in-sub-diamond" {
 		hdr += fmt.Sprintf("import (\n\t%q\n\t%q\n)\n\n", rootPath+"/mid", subPath)
 	} else if needSub && strings.Contains(asrc, "sub.") {
 		hdr += fmt.Sprintf("import %q\n\n", subPath)
@@ -229,6 +237,9 @@ func Union(c explore.Chooser) *prog.Program {
 	p := &prog.Program{Family: "F-union", Analysed: []string{"a.go"}, Features: s.Feats}
 	if needSub {
 		p.Pkgs = append(p.Pkgs, &prog.Pkg{Path: subPath, Name: "sub", Files: []prog.File{{Name: "sub.go", Src: "package sub\n\n" + sub.String()}}})
+	}
+	if second == "in-module-root" {
+		p.Pkgs = append(p.Pkgs, &prog.Pkg{Path: prog.Module, Name: "proj", Files: []prog.File{{Name: "beasts.go", Src: "package proj\n\ntype Beast interface {\n\tisBeast()\n}\n\ntype Lion struct {\n\tMane int\n}\n\nfunc (Lion) isBeast() {}\n\ntype Wolf struct {\n\tPack string\n}\n\nfunc (Wolf) isBeast() {}\n"}}})
 	}
 	if second == "in-sub-diamond" {
 		p.Pkgs = append(p.Pkgs, &prog.Pkg{Path: rootPath + "/mid", Name: "mid", Files: []prog.File{{Name: "mid.go", Src: "package mid\n\nimport \"" + subPath + "\"\n\ntype Kennel struct {\n\tDogs []sub.Dog\n}\n"}}})
